@@ -41,11 +41,14 @@ EXPLANATION = ("c20_partial: every change that alters the recorded identity (mti
                "same_tick_witness / restore_mtime_witness; DESIGN level: partial (proof of the partial statement; timestamp granularity is a runtime parameter).")
 
 POINTS = ["after-inputs-loaded", "after-symbol-resolution", "after-layout", "after-write"]
-MUTS = ["rewrite", "append", "rename", "rename-same-mtime", "touch", "restore", "remove", "none"]
+MUTS = ["rewrite", "append", "rename", "rename-same-mtime", "rename-older", "backdate", "touch", "restore", "remove", "none"]
 KINDS = ["object", "archive", "thin-member", "script"]
 MODEL_MUT = {"rewrite": ("rewrite", 1), "append": ("append", 1), "rename": ("rename", 1), "rename-same-mtime": ("rename", 0), "touch": ("touch", 1),
-             "restore": ("restore", 1), "remove": ("remove", 1), "none": ("none", 1)}
-CONTENT_CHANGING = {"rewrite", "append", "rename", "remove"}
+             "restore": ("restore", 1), "remove": ("remove", 1), "none": ("none", 1),
+             # the recorded identity changes, but to an OLDER timestamp (a cached / `cp -p` artifact renamed over the input; a rewrite
+             # followed by a back-dated mtime): still a change of the mtime the link recorded at open
+             "rename-older": ("rename", 1), "backdate": ("rewrite", 1)}
+CONTENT_CHANGING = {"rewrite", "append", "rename", "remove", "rename-older", "backdate"}
 
 
 def setup(ctx, inputs, tag="c20"):
@@ -72,20 +75,25 @@ def mutate(path, mut):
     else:
         new = data.replace(b"\x11" * 8, b"\x22" * 8)
     assert new != data and len(new) == len(data), path
-    if mut in ("rewrite", "restore"):
+    older = st.st_mtime_ns - 3600 * 10 ** 9
+    if mut in ("rewrite", "restore", "backdate"):
         with open(path, "r+b") as f:
             f.write(new)
         if mut == "restore":
             os.utime(path, ns=(st.st_atime_ns, st.st_mtime_ns))
+        if mut == "backdate":
+            os.utime(path, ns=(st.st_atime_ns, older))
     elif mut == "append":
         with open(path, "ab") as f:
             f.write(b"\n" if path.endswith(".ld") else b"\0" * 8)
-    elif mut in ("rename", "rename-same-mtime"):
+    elif mut in ("rename", "rename-same-mtime", "rename-older"):
         tmp = path + ".new"
         with open(tmp, "wb") as f:
             f.write(new)
         if mut == "rename-same-mtime":
             os.utime(tmp, ns=(st.st_atime_ns, st.st_mtime_ns))
+        if mut == "rename-older":
+            os.utime(tmp, ns=(st.st_atime_ns, older))
         os.replace(tmp, path)
     elif mut == "touch":
         os.utime(path, None)
